@@ -70,13 +70,16 @@ def bad_values(row):
                 ("v6-family-width15", b"\x00\x02" + bytes(15)), ("v6-family-width17", b"\x00\x02" + bytes(17)),
                 ("v4-family-only", b"\x00\x01"), ("v6-family-only", b"\x00\x02"),
                 ("str-garbage", "not-an-ip"), ("str-3-octets", "1.2.3"), ("str-5-octets", "1.2.3.4.5"), ("str-256", "256.1.1.1"),
-                ("str-empty", ""), ("str-cidr", "10.0.0.0/8"), ("None", None), ("float", 1.5), ("list", ["1.2.3.4"])]
+                ("str-empty", ""), ("str-cidr", "10.0.0.0/8"), ("None", None), ("float", 1.5), ("list", ["1.2.3.4"]),
+                ("str-trailing-lf", "10.0.0.1\n"), ("str-trailing-space", "10.0.0.1 "), ("str-unicode-digit", "10.0.0.\u0663")]
     if t == "Time":
         out += [("str", "2020-01-01"), ("int", 5), ("None", None), ("float", 1.5), ("date", datetime.date(2020, 1, 1)),
                 ("dt-1899", datetime.datetime(1899, 12, 31, 23, 59, 59)), ("dt-2036-overflow", datetime.datetime(2036, 2, 7, 6, 28, 16)),
                 ("dt-2100", datetime.datetime(2100, 1, 1))]
     if t == "DiameterURI":
-        out += [("http", "http://host.example.com"), ("empty", ""), ("scheme-only", "aaa://"), ("no-scheme", "host.example.com"),
+        out += [("trailing-lf", "aaa://host.example.com\n"), ("trailing-lf-bytes", b"aaas://host.example.com:3868\n"),
+                ("trailing-space", "aaa://host.example.com "), ("leading-lf", "\naaa://host.example.com"), ("embedded-lf", "aaa://host.exa\nmple.com"),
+                ("http", "http://host.example.com"), ("empty", ""), ("scheme-only", "aaa://"), ("no-scheme", "host.example.com"),
                 ("http-bytes", b"http://host.example.com"), ("None", None), ("int", 5), ("diameter-scheme", "diameter://host.example.com"),
                 ("aaa-uppercase-scheme-missing-slashes", "aaa:host.example.com")]
         # transport/port grammar is not judged: the statement only claims the aaa/aaas scheme
@@ -140,7 +143,12 @@ def check_mandatory_missing(row):
     members = list(row.get("mandatory", {}).values())
     for skip in members:
         objs = [sample_obj(m) for m in members if m != skip]
-        for form, val in (("list", objs), ("bytes", b"".join(o.dump() for o in objs))):
+        variants = [("list", objs), ("bytes", b"".join(o.dump() for o in objs))]
+        if objs:
+            # another mandatory member given twice does not stand in for the missing one
+            dup = objs + [sample_obj(type(objs[0]).__name__)]
+            variants += [("list+repeated-other", dup), ("bytes+repeated-other", b"".join(o.dump() for o in dup))]
+        for form, val in variants:
             try:
                 cls(val)
             except (Exception,) + errors:
